@@ -9,12 +9,14 @@ namespace Asm
 open Kern
 
 /-- machine state at label `small`: `SI` = data, `BX` = length, `X0` = the needle byte in every lane,
-    `X2` = 0x20 in every lane (the bodies' prologues broadcast them) -/
-def init (mem : Nat → UInt8) (base len : Nat) (x0 : UInt8) : St where
-  r := fun q => match q with | .BX => len | .SI => base | _ => 0
-  x := fun q _ => match q with | .X0 => x0 | .X2 => 0x20 | .X1 => 0
-  zf := false
-  cf := false
+    `X2` = 0x20 in every lane (the bodies' prologues broadcast them); every other register, the lanes of `X1` and the
+    flags are arbitrary (`junk`, `jx`, `jz`, `jc`) -/
+def init (mem : Nat → UInt8) (base len : Nat) (x0 : UInt8) (junk : Reg → Nat := fun _ => 0) (jx : Nat → UInt8 := fun _ => 0)
+    (jz jc : Bool := false) : St where
+  r := fun q => match q with | .BX => len | .SI => base | q => junk q
+  x := fun q j => match q with | .X0 => x0 | .X2 => 0x20 | .X1 => jx j
+  zf := jz
+  cf := jc
   mem := mem
   loads := []
   out := none
@@ -48,9 +50,10 @@ set_option maxRecDepth 8000 in
 set_option maxHeartbeats 4000000 in
 /-- **`indexbytebody`, `len < 16`**: running the instructions of the working tree from label `small` stores exactly what
     the block model `Kern.small` returns and performs exactly its load — for every memory, base, length and needle byte -/
-theorem small_indexbytebody_correct (mem : Nat → UInt8) (base len : Nat) (c : UInt8) (h16 : len < 16) (hb : base + 32 < 2 ^ 64) :
-    (runSmall Gen.Asm.small_indexbytebody (init mem base len c)).out = some (small (fun b => b == c) mem base len).1 ∧
-    (runSmall Gen.Asm.small_indexbytebody (init mem base len c)).loads = (small (fun b => b == c) mem base len).2 := by
+theorem small_indexbytebody_correct (mem : Nat → UInt8) (base len : Nat) (c : UInt8) (junk : Reg → Nat) (jx : Nat → UInt8) (jz jc : Bool)
+    (h16 : len < 16) (hb : base + 32 < 2 ^ 64) :
+    (runSmall Gen.Asm.small_indexbytebody (init mem base len c junk jx jz jc)).out = some (small (fun b => b == c) mem base len).1 ∧
+    (runSmall Gen.Asm.small_indexbytebody (init mem base len c junk jx jz jc)).loads = (small (fun b => b == c) mem base len).2 := by
   have hlw : len % W32 = len := Nat.mod_eq_of_lt (by unfold W32; omega)
   have a16 : (base + 0 + dispN 16) % W64 = base + 16 := by rw [dispN16]; unfold W64; omega
   have a0 : (base + 0 + dispN 0) % W64 = base := by rw [dispN0]; unfold W64; omega
@@ -104,9 +107,10 @@ theorem small_indexbytebody_correct (mem : Nat → UInt8) (base len : Nat) (c : 
 set_option maxRecDepth 8000 in
 set_option maxHeartbeats 4000000 in
 /-- **`indexbytebodyCase`, `len < 16`** (letter needles: data OR-ed with 0x20, compared with the lower-cased needle in `X0`) -/
-theorem small_indexbytebodyCase_correct (mem : Nat → UInt8) (base len : Nat) (c : UInt8) (h16 : len < 16) (hb : base + 32 < 2 ^ 64) :
-    (runSmall Gen.Asm.small_indexbytebodyCase (init mem base len c)).out = some (small (fun b => (b ||| 0x20) == c) mem base len).1 ∧
-    (runSmall Gen.Asm.small_indexbytebodyCase (init mem base len c)).loads = (small (fun b => (b ||| 0x20) == c) mem base len).2 := by
+theorem small_indexbytebodyCase_correct (mem : Nat → UInt8) (base len : Nat) (c : UInt8) (junk : Reg → Nat) (jx : Nat → UInt8) (jz jc : Bool)
+    (h16 : len < 16) (hb : base + 32 < 2 ^ 64) :
+    (runSmall Gen.Asm.small_indexbytebodyCase (init mem base len c junk jx jz jc)).out = some (small (fun b => (b ||| 0x20) == c) mem base len).1 ∧
+    (runSmall Gen.Asm.small_indexbytebodyCase (init mem base len c junk jx jz jc)).loads = (small (fun b => (b ||| 0x20) == c) mem base len).2 := by
   have hlw : len % W32 = len := Nat.mod_eq_of_lt (by unfold W32; omega)
   have a16 : (base + 0 + dispN 16) % W64 = base + 16 := by rw [dispN16]; unfold W64; omega
   have a0 : (base + 0 + dispN 0) % W64 = base := by rw [dispN0]; unfold W64; omega
@@ -161,9 +165,10 @@ theorem small_indexbytebodyCase_correct (mem : Nat → UInt8) (base len : Nat) (
 set_option maxRecDepth 8000 in
 set_option maxHeartbeats 4000000 in
 /-- **`indexByteBodyNonASCII`, `len < 16`** (the top bit of every data byte, straight from `PMOVMSKB`) -/
-theorem small_indexByteBodyNonASCII_correct (mem : Nat → UInt8) (base len : Nat) (c : UInt8) (h16 : len < 16) (hb : base + 32 < 2 ^ 64) :
-    (runSmall Gen.Asm.small_indexByteBodyNonASCII (init mem base len c)).out = some (small (fun b => decide (b ≥ 0x80)) mem base len).1 ∧
-    (runSmall Gen.Asm.small_indexByteBodyNonASCII (init mem base len c)).loads = (small (fun b => decide (b ≥ 0x80)) mem base len).2 := by
+theorem small_indexByteBodyNonASCII_correct (mem : Nat → UInt8) (base len : Nat) (c : UInt8) (junk : Reg → Nat) (jx : Nat → UInt8) (jz jc : Bool)
+    (h16 : len < 16) (hb : base + 32 < 2 ^ 64) :
+    (runSmall Gen.Asm.small_indexByteBodyNonASCII (init mem base len c junk jx jz jc)).out = some (small (fun b => decide (b ≥ 0x80)) mem base len).1 ∧
+    (runSmall Gen.Asm.small_indexByteBodyNonASCII (init mem base len c junk jx jz jc)).loads = (small (fun b => decide (b ≥ 0x80)) mem base len).2 := by
   have hlw : len % W32 = len := Nat.mod_eq_of_lt (by unfold W32; omega)
   have a16 : (base + 0 + dispN 16) % W64 = base + 16 := by rw [dispN16]; unfold W64; omega
   have a0 : (base + 0 + dispN 0) % W64 = base := by rw [dispN0]; unfold W64; omega
@@ -214,5 +219,117 @@ theorem small_indexByteBodyNonASCII_correct (mem : Nat → UInt8) (base len : Na
         have hk63 : k - (16 - len) < 2 ^ 63 := by omega
         constructor <;> asm_exec [Gen.Asm.small_indexByteBodyNonASCII, h0', a16, am, hp, hlw, hfb, hk63]
 
+
+set_option maxRecDepth 8000 in
+set_option maxHeartbeats 4000000 in
+/-- **`countbody`, `len < 16`**: the regenerated instruction sequence stores the block model's count and performs its load -/
+theorem small_countbody_correct (mem : Nat → UInt8) (base len : Nat) (c : UInt8) (junk : Reg → Nat) (jx : Nat → UInt8) (jz jc : Bool)
+    (h16 : len < 16) (hb : base + 32 < 2 ^ 64) :
+    (runSmall Gen.Asm.small_countbody (init mem base len c junk jx jz jc)).out = some ((cntSmall (fun b => b == c) mem base len).1 : Int) ∧
+    (runSmall Gen.Asm.small_countbody (init mem base len c junk jx jz jc)).loads = (cntSmall (fun b => b == c) mem base len).2 := by
+  have a16 : (base + 0 + dispN 16) % W64 = base + 16 := by rw [dispN16]; unfold W64; omega
+  have a0 : (base + 0 + dispN 0) % W64 = base := by rw [dispN0]; unfold W64; omega
+  unfold runSmall cntSmall
+  by_cases h0 : len = 0
+  · subst h0
+    rw [if_pos rfl]
+    constructor <;> asm_exec [Gen.Asm.small_countbody] <;> rfl
+  · rw [if_neg h0]
+    have h0' : (len == 0) = false := beq_eq_false_iff_ne.mpr h0
+    cases hp : ((4080 &&& (base + 16)) % 65536 == 0) with
+    | false =>
+      have hpt : ¬ ((base + 16) % 4096 / 16 = 0) := by
+        have := pageTest (base + 16); rw [hp] at this
+        intro h; rw [beq_iff_eq.mpr h] at this; cases this
+      rw [if_neg hpt]
+      have hm := lowMask_val (junk Reg.CX) len h16
+      have hcnt := popcnt_masked (fun j => if mem (base + j) = c then (255 : UInt8) else 0) (fun b => b == c) mem base
+        (2 ^ len - 1) 0 len (by omega) (lowMask_bits len h16) (fun j => by by_cases h : mem (base + j) = c <;> simp [h])
+      have hle := cntBits_le ((mask (fun j => if mem (base + j) = c then (255 : UInt8) else 0) 16 &&& (2 ^ len - 1)) % W32) 32 0
+      have h63 : cntBits ((mask (fun j => if mem (base + j) = c then (255 : UInt8) else 0) 16 &&& (2 ^ len - 1)) % W32) 0 32 < 2 ^ 63 := by omega
+      constructor
+      · asm_exec [Gen.Asm.small_countbody, h0', a16, a0, hp, hm, h63]
+        rw [hcnt]
+      · asm_exec [Gen.Asm.small_countbody, h0', a16, a0, hp]
+    | true =>
+      have hpt : (base + 16) % 4096 / 16 = 0 := by
+        have := pageTest (base + 16); rw [hp] at this
+        exact beq_iff_eq.mp this.symm
+      rw [if_pos hpt]
+      have am : (base + len + dispN (-16)) % W64 = base + len - 16 := by rw [dispNm16]; unfold W64; omega
+      have hm := highMask_val len h16 (by omega)
+      have hbits : ∀ i, i < 16 → ((65535 >>> (16 - len)) <<< (16 - len)).testBit i =
+          (decide (16 - len ≤ i) && decide (i < 16 - len + len)) := by
+        intro i hi
+        have := highMask_bits (16 - len) (by omega) i hi
+        have e : 16 - (16 - len) = len := by omega
+        rw [e] at this; exact this
+      have hcnt := popcnt_masked (fun j => if mem (base + len - 16 + j) = c then (255 : UInt8) else 0) (fun b => b == c) mem
+        (base + len - 16) ((65535 >>> (16 - len)) <<< (16 - len)) (16 - len) len (by omega) hbits
+        (fun j => by by_cases h : mem (base + len - 16 + j) = c <;> simp [h])
+      have hle := cntBits_le ((mask (fun j => if mem (base + len - 16 + j) = c then (255 : UInt8) else 0) 16 &&&
+        ((65535 >>> (16 - len)) <<< (16 - len))) % W32) 32 0
+      have h63 : cntBits ((mask (fun j => if mem (base + len - 16 + j) = c then (255 : UInt8) else 0) 16 &&&
+        ((65535 >>> (16 - len)) <<< (16 - len))) % W32) 0 32 < 2 ^ 63 := by omega
+      constructor
+      · asm_exec [Gen.Asm.small_countbody, h0', a16, am, hp, hm, h63]
+        rw [hcnt]
+      · asm_exec [Gen.Asm.small_countbody, h0', a16, am, hp]
+
+set_option maxRecDepth 8000 in
+set_option maxHeartbeats 4000000 in
+/-- **`countbodyCase`, `len < 16`** -/
+theorem small_countbodyCase_correct (mem : Nat → UInt8) (base len : Nat) (c : UInt8) (junk : Reg → Nat) (jx : Nat → UInt8) (jz jc : Bool)
+    (h16 : len < 16) (hb : base + 32 < 2 ^ 64) :
+    (runSmall Gen.Asm.small_countbodyCase (init mem base len c junk jx jz jc)).out = some ((cntSmall (fun b => (b ||| 0x20) == c) mem base len).1 : Int) ∧
+    (runSmall Gen.Asm.small_countbodyCase (init mem base len c junk jx jz jc)).loads = (cntSmall (fun b => (b ||| 0x20) == c) mem base len).2 := by
+  have a16 : (base + 0 + dispN 16) % W64 = base + 16 := by rw [dispN16]; unfold W64; omega
+  have a0 : (base + 0 + dispN 0) % W64 = base := by rw [dispN0]; unfold W64; omega
+  unfold runSmall cntSmall
+  by_cases h0 : len = 0
+  · subst h0
+    rw [if_pos rfl]
+    constructor <;> asm_exec [Gen.Asm.small_countbodyCase] <;> rfl
+  · rw [if_neg h0]
+    have h0' : (len == 0) = false := beq_eq_false_iff_ne.mpr h0
+    cases hp : ((4080 &&& (base + 16)) % 65536 == 0) with
+    | false =>
+      have hpt : ¬ ((base + 16) % 4096 / 16 = 0) := by
+        have := pageTest (base + 16); rw [hp] at this
+        intro h; rw [beq_iff_eq.mpr h] at this; cases this
+      rw [if_neg hpt]
+      have hm := lowMask_val (junk Reg.CX) len h16
+      have hcnt := popcnt_masked (fun j => if mem (base + j) ||| 32 = c then (255 : UInt8) else 0) (fun b => (b ||| 0x20) == c) mem base
+        (2 ^ len - 1) 0 len (by omega) (lowMask_bits len h16) (fun j => by by_cases h : mem (base + j) ||| 32 = c <;> simp [h])
+      have hle := cntBits_le ((mask (fun j => if mem (base + j) ||| 32 = c then (255 : UInt8) else 0) 16 &&& (2 ^ len - 1)) % W32) 32 0
+      have h63 : cntBits ((mask (fun j => if mem (base + j) ||| 32 = c then (255 : UInt8) else 0) 16 &&& (2 ^ len - 1)) % W32) 0 32 < 2 ^ 63 := by omega
+      constructor
+      · asm_exec [Gen.Asm.small_countbodyCase, h0', a16, a0, hp, hm, h63]
+        rw [hcnt]
+      · asm_exec [Gen.Asm.small_countbodyCase, h0', a16, a0, hp]
+    | true =>
+      have hpt : (base + 16) % 4096 / 16 = 0 := by
+        have := pageTest (base + 16); rw [hp] at this
+        exact beq_iff_eq.mp this.symm
+      rw [if_pos hpt]
+      have am : (base + len + dispN (-16)) % W64 = base + len - 16 := by rw [dispNm16]; unfold W64; omega
+      have hm := highMask_val len h16 (by omega)
+      have hbits : ∀ i, i < 16 → ((65535 >>> (16 - len)) <<< (16 - len)).testBit i =
+          (decide (16 - len ≤ i) && decide (i < 16 - len + len)) := by
+        intro i hi
+        have := highMask_bits (16 - len) (by omega) i hi
+        have e : 16 - (16 - len) = len := by omega
+        rw [e] at this; exact this
+      have hcnt := popcnt_masked (fun j => if mem (base + len - 16 + j) ||| 32 = c then (255 : UInt8) else 0) (fun b => (b ||| 0x20) == c) mem
+        (base + len - 16) ((65535 >>> (16 - len)) <<< (16 - len)) (16 - len) len (by omega) hbits
+        (fun j => by by_cases h : mem (base + len - 16 + j) ||| 32 = c <;> simp [h])
+      have hle := cntBits_le ((mask (fun j => if mem (base + len - 16 + j) ||| 32 = c then (255 : UInt8) else 0) 16 &&&
+        ((65535 >>> (16 - len)) <<< (16 - len))) % W32) 32 0
+      have h63 : cntBits ((mask (fun j => if mem (base + len - 16 + j) ||| 32 = c then (255 : UInt8) else 0) 16 &&&
+        ((65535 >>> (16 - len)) <<< (16 - len))) % W32) 0 32 < 2 ^ 63 := by omega
+      constructor
+      · asm_exec [Gen.Asm.small_countbodyCase, h0', a16, am, hp, hm, h63]
+        rw [hcnt]
+      · asm_exec [Gen.Asm.small_countbodyCase, h0', a16, am, hp]
 
 end Asm
